@@ -104,6 +104,12 @@ pub fn machines(opts: &Opts) -> Vec<MCfg> {
             m.bounds = b(2, 2, 0, 0, 4);
             m.seeds = vec![0];
             out.push(m);
+            // an optimizer update between two passes over a graph that still references the old parameter
+            let mut m = base_cfg("N2P2U1/update-between-passes", same_shape_leaves(var), vec![OpK::Mul, OpK::Add], 5);
+            m.bounds = Bounds { builds: 2, passes: 2, updates: 1, depth: 5, ..Bounds::default() };
+            m.seeds = vec![0];
+            m.update_slots = vec![0, 1];
+            out.push(m);
             // handles cloned, flagged and dropped between passes
             let two: Vec<LeafSpec> = same_shape_leaves(var).into_iter().take(2).collect();
             let mut m = base_cfg("N1P2F2K1D1/handles-between-passes", two, vec![OpK::Mul], 4);
@@ -155,6 +161,11 @@ pub fn machines(opts: &Opts) -> Vec<MCfg> {
             m.bounds = b(2, 2, 1, 1, 6);
             m.seeds = vec![0, 1];
             m.check_fresh_diff = true;
+            out.push(m);
+            let mut m = base_cfg("N2P3U2/update-between-passes", same_shape_leaves(var), vec![OpK::Mul, OpK::Add], 5);
+            m.bounds = Bounds { builds: 2, passes: 3, updates: 2, depth: 6, ..Bounds::default() };
+            m.seeds = vec![0];
+            m.update_slots = vec![0, 1];
             out.push(m);
             let two: Vec<LeafSpec> = same_shape_leaves(var).into_iter().take(2).collect();
             let mut m = base_cfg("N1P3F2K1D1C1/handles-between-passes", two, vec![OpK::Mul], 4);
